@@ -280,4 +280,58 @@ theorem union_intersect_reg {B : List Version} (hB : RegB B) (rs : List RC) (b :
   rw [e1, hsem p hp hreg, Bool.and_eq_true]
   simp [anyPart]
 
+theorem VC.intersect_single_union (a : RC) (rs : List RC) :
+    VC.intersect (.single a) (.union rs) = VC.intersect (.union rs) (.single a) := rfl
+
+theorem SortedRC_flatten_of_WF (c : VC) (h : c.WF) : SortedRC c.flatten := by
+  cases c with
+  | empty => simp [SortedRC, VC.flatten]
+  | single x => simp [SortedRC, VC.flatten]
+  | union ts => exact h.2.2.1
+
+/-- **`a.intersect(b)` for any two well-formed constraints over regular members**: defined, the result is again a
+well-formed constraint over regular members, and it admits a regular probe iff both operands do -/
+theorem VC.intersect_reg {B : List Version} (hB : RegB B) (a b : VC) (ha : a.WF) (hb : b.WF)
+    (hma : ∀ c ∈ a.flatten, RegMember B c) (hmb : ∀ c ∈ b.flatten, RegMember B c) :
+    ∃ res, VC.intersect a b = .ok res ∧ res.WF ∧ (∀ c ∈ res.flatten, RegMember B c) ∧
+      ∀ p, p.wf = true → Regular (boundsOf a.flatten ++ boundsOf b.flatten) p →
+        res.allowsPlain p = (a.allowsPlain p && b.allowsPlain p) := by
+  cases a with
+  | empty =>
+    exact ⟨.empty, rfl, trivial, by simp [VC.flatten], fun p _ _ => by simp [VC.allowsPlain, VC.flatten]⟩
+  | union rs => exact union_intersect_reg hB rs b hma hmb ha.2.2.1 (SortedRC_flatten_of_WF b hb)
+  | single x =>
+    have hx := hma x (by simp [VC.flatten])
+    cases b with
+    | empty =>
+      exact ⟨.empty, rfl, trivial, by simp [VC.flatten], fun p _ _ => by simp [VC.allowsPlain, VC.flatten]⟩
+    | union ts =>
+      rw [VC.intersect_single_union]
+      obtain ⟨res, h1, h2, h3, h4⟩ := union_intersect_reg hB ts (.single x) hmb hma hb.2.2.1
+        (by simp [SortedRC, VC.flatten])
+      refine ⟨res, h1, h2, h3, fun p hp hreg => ?_⟩
+      rw [h4 p hp (hreg.mono (by intro e he; simp only [List.mem_append] at he ⊢; exact he.symm)), Bool.and_comm]
+      rfl
+    | single y =>
+      have hy := hmb y (by simp [VC.flatten])
+      have hnl : ∀ r v, (x = .rng r ∧ y = .ver v) ∨ (x = .ver v ∧ y = .rng r) → ¬ RC.LocalMinCase r v := by
+        rintro r v hx' ⟨_, m, hm, hloc, _⟩
+        have : m ∈ B := by
+          rcases hx' with ⟨h1, _⟩ | ⟨_, h1⟩
+          · exact hx.2.2.2 m (by rw [h1]; exact VRange.mem_bounds_min hm)
+          · exact hy.2.2.2 m (by rw [h1]; exact VRange.mem_bounds_min hm)
+        rw [hB.noloc m this] at hloc; cases hloc
+      obtain ⟨i, hi, hex⟩ := RC.intersect_plain x y hx.1 hy.1 hnl
+      have hreg := RC.intersect_reg hB x y hx hy i hi
+      have hnu := RC.intersect_notUnion x y i hi
+      refine ⟨i, hi, ?_, hreg, fun p hp hr => ?_⟩
+      · cases i with
+        | empty => trivial
+        | single c => exact ⟨(hreg c (by simp [VC.flatten])).1, (hreg c (by simp [VC.flatten])).2.2.1⟩
+        | union ds => exact absurd hnu (by simp [VC.notUnion])
+      · rw [hex p hp (hr.mono (by
+          intro e he
+          simpa [boundsOf, VC.flatten] using he))]
+        simp [VC.allowsPlain, VC.flatten]
+
 end Poetry
